@@ -56,3 +56,331 @@ def nested_int(seed, k, depth=3, heavy_ok=True):
     else:
         body = _expr(rng, want, depth, params, cheap)
     return Module(funcs=[Func(params, [want], [], body)], exports=[('f', 'func', 0)])
+
+
+# ====================================================================== C03 control flow
+CF_PARAMS = [I32, I32, I64, F32, F64]     # p0 = loop fuel (assumed <= 3), p1.. data
+HOST_H = Import('env', 'h', 'func', ([I32], [I32]))
+
+
+class CFGen:
+    """Random well-typed structured programs (valid by construction)."""
+    def __init__(self, rng, max_depth=3, use_host=True):
+        self.rng = rng
+        self.max_depth = max_depth
+        self.use_host = use_host
+        self.locals = []
+        self.nparams = len(CF_PARAMS)
+        self.fuel_used = False
+
+    def ltypes(self):
+        return CF_PARAMS + self.locals
+
+    def const(self, t):
+        r = self.rng
+        if t == I32:
+            return (t + '.const', r.choice([0, 1, 2, 3, 7, 0xFFFFFFFF, 0x80000000, 100]))
+        if t == I64:
+            return (t + '.const', r.choice([0, 1, 5, 0xFFFFFFFFFFFFFFFF, 0x8000000000000000, 1 << 40]))
+        if t == F32:
+            return (t + '.const', r.choice([0, 0x3F800000, 0x80000000, 0x7FC00001, 0xFF800000, 0x00000001]))
+        return (t + '.const', r.choice([0, 0x3FF0000000000000, 0x8000000000000000, 0x7FF8000000000001, 0x7FF0000000000000]))
+
+    def expr(self, t, depth, labels):
+        """instructions leaving exactly one value of type t"""
+        r = self.rng
+        choices = ['const', 'local', 'local']
+        if depth > 0:
+            choices += ['tee', 'select', 'block', 'if', 'binop' if t in (I32, I64) else 'local']
+            if t == I32 and self.use_host:
+                choices += ['host']
+            if t == I32:
+                choices += ['cmp']
+            if depth > 1:
+                choices += ['loopval']
+        c = r.choice(choices)
+        lt = self.ltypes()
+        if c == 'const':
+            return [self.const(t)]
+        if c == 'local':
+            cands = [i for i, x in enumerate(lt) if x == t and i != 0]
+            if not cands:
+                return [self.const(t)]
+            return [('local.get', r.choice(cands))]
+        if c == 'tee':
+            cands = [i for i, x in enumerate(lt) if x == t and i != 0]
+            if not cands:
+                return [self.const(t)]
+            return self.expr(t, depth - 1, labels) + [('local.tee', r.choice(cands))]
+        if c == 'select':
+            return self.expr(t, depth - 1, labels) + self.expr(t, depth - 1, labels) + self.expr(I32, depth - 1, labels) + [('select',)]
+        if c == 'binop':
+            op = r.choice(['add', 'sub', 'xor', 'and', 'or'])
+            return self.expr(t, depth - 1, labels) + self.expr(t, depth - 1, labels) + [('%s.%s' % (t, op),)]
+        if c == 'cmp':
+            tt = r.choice([I32, I64])
+            return self.expr(tt, depth - 1, labels) + self.expr(tt, depth - 1, labels) + [('%s.%s' % (tt, r.choice(['eq', 'lt_u', 'gt_s', 'ne'])),)]
+        if c == 'host':
+            return self.expr(I32, depth - 1, labels) + [('call', 0)]
+        if c == 'block':
+            body = self.stmts(depth - 1, labels + [('block', t)], r.randint(0, 2)) + self.value_or_branch(t, depth - 1, labels + [('block', t)])
+            return [('block', t, body)]
+        if c == 'loopval':
+            body = self.stmts(depth - 1, labels + [('loop', t)], r.randint(0, 1)) + self.expr(t, depth - 1, labels + [('loop', t)])
+            return [('loop', t, body)]
+        if c == 'if':
+            cond = self.expr(I32, depth - 1, labels)
+            l2 = labels + [('if', t)]
+            return cond + [('if', t, self.stmts(depth - 1, l2, r.randint(0, 1)) + self.value_or_branch(t, depth - 1, l2),
+                            self.stmts(depth - 1, l2, r.randint(0, 1)) + self.value_or_branch(t, depth - 1, l2))]
+        raise Exception(c)
+
+    def junk(self, depth, labels):
+        """0..2 extra operands pushed below a carried value"""
+        out = []
+        for _ in range(self.rng.randint(0, 2)):
+            out += self.expr(self.rng.choice([I32, I64, F32, F64]), min(depth, 1), labels)
+        return out
+
+    def branch_to(self, k, depth, labels):
+        """unconditional transfer to label k (relative depth) carrying what it needs, with junk below"""
+        kind, t = labels[-1 - k]
+        out = self.junk(depth, labels)
+        if kind != 'loop' and t is not None:
+            out += self.expr(t, depth, labels)
+        return out + [('br', k)]
+
+    def dead_code(self, depth, labels):
+        """valid code following an unconditional transfer (must be skipped without effect)"""
+        r = self.rng
+        out = []
+        for _ in range(r.randint(0, 2)):
+            c = r.choice(['stmt', 'const', 'nest', 'host'])
+            if c == 'stmt':
+                out += self.stmts(min(depth, 1), labels, 1)
+            elif c == 'const':
+                out += [self.const(r.choice([I32, I64, F32, F64])), ('drop',)]
+            elif c == 'host' and self.use_host:
+                out += [('i32.const', 99), ('call', 0), ('drop',)]
+            else:
+                t = r.choice([None, I32, F64])
+                inner = [('i64.const', 1 << 35), ('drop',)] + ([self.const(t)] if t else [])
+                if r.random() < 0.5:
+                    blk = ('block', t, inner)
+                    out += [blk] + ([('drop',)] if t else [])
+                else:
+                    out += [('i32.const', 1), ('if', t, inner, list(inner))] + ([('drop',)] if t else [])
+        return out
+
+    def value_or_branch(self, t, depth, labels):
+        """end of a block with result type t: either fall through with a value or leave by a branch (+dead code)"""
+        r = self.rng
+        if t is None:
+            return []
+        if depth > 0 and r.random() < 0.35:
+            # leave via br to any enclosing label of any depth, then dead code that still type-checks
+            k = r.randrange(len(labels))
+            out = self.branch_to(k, depth - 1, labels)
+            out += self.dead_code(depth - 1, labels)
+            out += [self.const(t)]   # unreachable, keeps the body well-typed for strict validators
+            return out
+        return self.expr(t, depth, labels)
+
+    def stmts(self, depth, labels, n):
+        out = []
+        for _ in range(n):
+            out += self.stmt(depth, labels)
+        return out
+
+    def stmt(self, depth, labels):
+        """instructions with net stack effect 0"""
+        r = self.rng
+        lt = self.ltypes()
+        choices = ['set', 'set', 'drop', 'nop']
+        if self.use_host:
+            choices += ['host']
+        if depth > 0:
+            choices += ['block', 'if', 'ifelse', 'br_if', 'br_if_val', 'loop', 'br_table']
+        c = r.choice(choices)
+        if c == 'nop':
+            return [('nop',)]
+        if c == 'set':
+            i = r.randrange(1, len(lt))
+            return self.expr(lt[i], depth, labels) + [('local.set', i)]
+        if c == 'drop':
+            return self.expr(r.choice([I32, I64, F32, F64]), depth, labels) + [('drop',)]
+        if c == 'host':
+            return self.expr(I32, depth, labels) + [('call', 0), ('drop',)]
+        if c == 'block':
+            l2 = labels + [('block', None)]
+            return [('block', None, self.stmts(depth - 1, l2, r.randint(1, 2)))]
+        if c == 'if':
+            l2 = labels + [('if', None)]
+            return self.expr(I32, depth - 1, labels) + [('if', None, self.stmts(depth - 1, l2, r.randint(1, 2)))]
+        if c == 'ifelse':
+            l2 = labels + [('if', None)]
+            return self.expr(I32, depth - 1, labels) + [('if', None, self.stmts(depth - 1, l2, r.randint(0, 2)), self.stmts(depth - 1, l2, r.randint(0, 2)))]
+        if c == 'br_if':
+            cands = [k for k in range(len(labels)) if labels[-1 - k][0] == 'loop' and False or (labels[-1 - k][0] != 'loop' and labels[-1 - k][1] is None)]
+            if not cands:
+                return [('nop',)]
+            k = r.choice(cands)
+            if labels[-1 - k][0] == 'func':
+                pass
+            return self.expr(I32, depth - 1, labels) + [('br_if', k)]
+        if c == 'br_if_val':
+            cands = [k for k in range(len(labels)) if labels[-1 - k][0] != 'loop' and labels[-1 - k][1] is not None]
+            if not cands:
+                return [('nop',)]
+            k = r.choice(cands)
+            t = labels[-1 - k][1]
+            j = self.junk(0, labels)
+            nj = self._last_junk_n
+            # junk + value + cond; when not taken: drop value and the junk operands
+            return j + self.expr(t, depth - 1, labels) + self.expr(I32, depth - 1, labels) + [('br_if', k), ('drop',)] + [('drop',)] * nj
+        if c == 'loop':
+            # bounded loop driven by the fuel parameter p0: block{ loop{ if fuel==0 br 1; body; fuel--; br 0 } }
+            # (not nested inside another fuel loop and at most two per function: keeps the unrolled size linear)
+            if getattr(self, 'in_loop', False) or getattr(self, 'nloops', 0) >= 2:
+                return [('nop',)]
+            self.fuel_used = True
+            self.in_loop = True
+            self.nloops = getattr(self, 'nloops', 0) + 1
+            l2 = labels + [('block', None), ('loop', None)]
+            inner = self.stmts(depth - 1, l2, r.randint(1, 2))
+            self.in_loop = False
+            body = [('local.get', 0), ('i32.eqz',), ('br_if', 1)] + inner + \
+                   [('local.get', 0), ('local.get', 0), ('i32.const', 0), ('i32.ne',), ('i32.sub',), ('local.set', 0), ('br', 0)]
+            return [('block', None, [('loop', None, body)])]
+        if c == 'br_table':
+            # block nest with a br_table choosing among arity-0 labels, dead code after it
+            n = r.randint(0, 3)
+            l2 = labels + [('block', None)]
+            cands = [k for k in range(len(l2)) if l2[-1 - k][1] is None and l2[-1 - k][0] not in ('loop', 'func')]
+            tbl = [r.choice(cands) for _ in range(n)]
+            body = self.stmts(depth - 1, l2, r.randint(0, 1)) + self.junk(0, l2) + self.expr(I32, depth - 1, l2) + \
+                   [('br_table', tbl, r.choice(cands))] + self.dead_code(depth - 1, l2)
+            return [('block', None, body)]
+        raise Exception(c)
+
+    def _count_pushed(self, instrs):
+        # junk() pushes one value per top-level expression; expressions are built so that each leaves one value.
+        # count by simulating: every expr() call result is a flat list, so track via markers
+        return getattr(self, '_last_junk_n', 0)
+
+    def junk(self, depth, labels):  # noqa: F811 (redefinition keeps count)
+        out = []
+        n = self.rng.randint(0, 2)
+        for _ in range(n):
+            out += self.expr(self.rng.choice([I32, I64, F32, F64]), min(depth, 1), labels)
+        self._last_junk_n = n
+        return out
+
+
+def control_flow(seed, k, max_depth=3):
+    import wasmvalid
+    for attempt in range(50):
+        m = _control_flow(seed, k, max_depth, attempt)
+        try:
+            wasmvalid.validate(m)
+            return m
+        except wasmvalid.Invalid:
+            continue
+    raise Exception('control_flow generator: no valid program')
+
+
+def _control_flow(seed, k, max_depth, attempt):
+    rng = random.Random(seed * 7919 + k * 31 + 5 + attempt * 1000003)
+    g = CFGen(rng, max_depth)
+    nloc = rng.randint(0, 3)
+    g.locals = [rng.choice([I32, I64, F32, F64]) for _ in range(nloc)]
+    rt = rng.choice([I32, I64, F32, F64, I32, None])
+    labels = [('func', rt)]
+    body = g.stmts(max_depth, labels, rng.randint(1, 3))
+    if rt is not None:
+        if rng.random() < 0.3:
+            body += g.junk(1, labels) + g.expr(rt, max_depth - 1, labels) + [('return',)] + g.dead_code(1, labels) + [g.const(rt)]
+        else:
+            body += g.expr(rt, max_depth, labels)
+    f = Func(CF_PARAMS, [rt] if rt else [], g.locals, body)
+    # run-length groups: sometimes split identical neighbours into separate declarations
+    m = Module(imports=[HOST_H], funcs=[f], exports=[('f', 'func', 1)])
+    return m
+
+
+def branch_matrix():
+    """targeted shapes: br / br_if from nesting depth d to label l with e extra operands below the carried
+    value, for every result type; br_table with 0..3 entries; dead code with nested structure."""
+    out = []
+    consts = {I32: ('i32.const', 7), I64: ('i64.const', (1 << 40) + 3), F32: ('f32.const', 0x7FC00123), F64: ('f64.const', 0xFFF0000000000000)}
+    for t in (I32, I64, F32, F64):
+        pidx = {I32: 1, I64: 2, F32: 3, F64: 4}[t]
+        for d in (1, 2, 3):
+            for l in range(d):
+                for e in (0, 1, 2):
+                    for cond in (False, True):
+                        extra = [consts[I64], consts[F32]][:e]
+                        inner = list(extra) + [('local.get', pidx)]
+                        if cond:
+                            inner += [('local.get', 1), ('br_if', l)] + [('drop',)] * (e + 1) + [consts[t]]
+                        else:
+                            inner += [('br', l), ('i32.const', 5), ('call', 0), ('drop',)] + [consts[t]]
+                        body = inner
+                        for lev in range(d):
+                            # blocks at and outside the target carry type t; wrap
+                            body = [('block', t, body)]
+                            if lev < d - 1:
+                                # consume inner result and produce a different value so the wrong target is visible
+                                body = body + [('drop',), consts[t]] if lev != l - 0 and False else body
+                        name = 'br_%s_d%d_l%d_e%d_%s' % (t, d, l, e, 'if' if cond else 'br')
+                        # make levels distinguishable: after each inner block add host call marking the level
+                        def mark(b, lev):
+                            return b
+                        f = Func(CF_PARAMS, [t], [], _mark_levels(body, t))
+                        out.append((name, Module(imports=[HOST_H], funcs=[f], exports=[('f', 'func', 1)])))
+    for n in range(0, 4):
+        for perm in range(2):
+            # br_table inside 3 nested blocks; each exit path calls the host with a different marker
+            tbl = [(i + perm) % 3 for i in range(n)]
+            body = [('block', None, [('block', None, [('block', None, [
+                ('i64.const', 9), ('local.get', 1), ('br_table', tbl, 2 - perm),
+                ('i32.const', 77), ('call', 0), ('drop',), ('block', I32, [('i32.const', 1), ('if', None, [('nop',)], [('unreachable',)]), ('i32.const', 2)]), ('drop',)]),
+                ('i32.const', 10), ('call', 0), ('drop',)]),
+                ('i32.const', 11), ('call', 0), ('drop',)]),
+                ('i32.const', 12), ('call', 0)]
+            f = Func(CF_PARAMS, [I32], [], body)
+            out.append(('brtable_n%d_p%d' % (n, perm), Module(imports=[HOST_H], funcs=[f], exports=[('f', 'func', 1)])))
+    # locals: run-length groups, zero init, tee
+    for variant in range(4):
+        locs = [[I32, I32, I64], [F32, I64, I64, F64], [I64], [F64, F64, I32, I32]][variant]
+        body = []
+        base = len(CF_PARAMS)
+        for i, t in enumerate(locs):
+            body += [('local.get', base + i), ('drop',)]
+        # result: mix of all locals of type i64/i32 folded by xor after a tee into the last one
+        acc = [('i32.const', 0)]
+        for i, t in enumerate(locs):
+            if t == I32:
+                acc += [('local.get', base + i), ('i32.xor',)]
+            elif t == I64:
+                acc += [('local.get', base + i), ('i32.wrap_i64',), ('i32.xor',)]
+            elif t == F32:
+                acc += [('local.get', base + i), ('i32.reinterpret_f32',), ('i32.xor',)]
+            else:
+                acc += [('local.get', base + i), ('i64.reinterpret_f64',), ('i32.wrap_i64',), ('i32.xor',)]
+        body += acc + [('local.get', 1), ('local.tee', 0), ('i32.add',), ('local.get', 0), ('i32.add',)]
+        f = Func(CF_PARAMS, [I32], locs, body)
+        out.append(('locals_v%d' % variant, Module(imports=[HOST_H], funcs=[f], exports=[('f', 'func', 1)])))
+    return out
+
+
+def _mark_levels(body, t):
+    """body is nested blocks [('block', t, inner)]: after each inner block add a host-call marker and an
+    xor-free re-push so that exiting at the wrong level changes the host trace."""
+    def rec(b, lev):
+        if len(b) == 1 and b[0][0] == 'block':
+            inner = rec(b[0][2], lev + 1)
+            blk = ('block', b[0][1], inner)
+            return [blk, ('i32.const', 100 + lev), ('call', 0), ('drop',)]
+        return b
+    return rec(body, 0)
